@@ -626,6 +626,14 @@ def discharge(B, site, t):
     """returns a reason string when the potential panic site is discharged by a recognised idiom, else None"""
     bb = site.bb
     facts = None
+    if site.kind == 'vec_index' and (t.get('callee') or '').endswith('>::insert') and len(t['args']) >= 2 \
+            and t['args'][1]['k'] == 'const' and str(t['args'][1].get('int')) == '0':
+        return 'insert at the constant index 0 (0 <= len always holds)'
+    if site.kind == 'unwrap' and (t.get('callee') or '').endswith(('::unwrap_err', '::expect_err')):
+        from errguard import structural_facts as _sf
+        d0 = sdesc_operand(B, t['args'][0])
+        if any(d == d0 and v == 'Err' for d, v in _sf(B, bb)):
+            return 'unwrap_err under the dominating test that %s is Err' % d0
     if site.kind == 'unwrap':
         a = t['args'][0]
         l = op_local(a)
